@@ -241,7 +241,10 @@ func (b *builder) mgmtCase() {
 	}
 	if phase == 0 {
 		lines = append(lines, "enable "+string(rune('A'+bad)), "manage", "settle")
-		// after a failed start no further pass (what becomes of the module is C01's subject)
+		// the failed module is Offline again: a further pass tries (and fails) again
+		if rng.Intn(2) == 0 {
+			lines = append(lines, "manage", "settle")
+		}
 	} else {
 		lines = append(lines, "disable "+string(rune('A'+bad)), "manage", "settle")
 		// the module is offline again and can be started and stopped once more
@@ -608,9 +611,9 @@ func generate(r *hxlib.Run, emit func(hxlib.Case)) {
 // ---------------------------------------------------------------------------------------------
 
 var (
-	nChildren, nCrashed, nHung, nSkipped, nBadCases int64
-	slowMu                                          sync.Mutex
-	slowCases                                       []string
+	nChildren, nCrashed, nHung, nSkipped, nBadCases, nRelaunch int64
+	slowMu                                                     sync.Mutex
+	slowCases                                                  []string
 )
 
 func suspicious(outs []string) bool {
@@ -699,6 +702,7 @@ func extra(r *hxlib.Run) map[string]any {
 		"children_crashed":       atomic.LoadInt64(&nCrashed),
 		"children_hung":          atomic.LoadInt64(&nHung),
 		"cases_skipped_failfast": atomic.LoadInt64(&nSkipped),
-		"cases_slower_than_5s":   append([]string{}, slowCases...),
+		"cases_with_failed_start_routine_relaunched_in_same_pass": atomic.LoadInt64(&nRelaunch),
+		"cases_slower_than_5s": append([]string{}, slowCases...),
 	}
 }
